@@ -445,3 +445,31 @@ impl FakeThread {
         Some(FAKE_THREAD_NAME)
     }
 }
+
+// --------------------------------------------------------------------------
+// Stand-in for `once_cell::sync::Lazy` (whose contended path parks the
+// current thread, i.e. reaches thread-local state): a std `OnceLock` plus the
+// initialiser.  Contract relied upon: the initialiser runs at most once and
+// every dereference sees its result.
+// --------------------------------------------------------------------------
+
+pub struct Lazy<T> {
+    cell: std::sync::OnceLock<T>,
+    init: fn() -> T,
+}
+
+impl<T> Lazy<T> {
+    pub const fn new(init: fn() -> T) -> Lazy<T> {
+        Lazy {
+            cell: std::sync::OnceLock::new(),
+            init,
+        }
+    }
+}
+
+impl<T> std::ops::Deref for Lazy<T> {
+    type Target = T;
+    fn deref(&self) -> &T {
+        self.cell.get_or_init(self.init)
+    }
+}
